@@ -103,6 +103,7 @@ def initial_states():
     out.append((("dict", {"": [0], "__NAN__": []}), Model([("", [0, ""]), ("__NAN__", ["__NAN__"])])))
     out.append((("dict", {1.5: [0, 1.5, "__NAN__"], 0: []}), Model([(1.5, [0, 1.5, "__NAN__"])])))
     out.append((("dict", {"__NAN__": ["__NAN__", ""], 0: [0, 1.5]}), Model([("__NAN__", ["__NAN__", ""]), (0, [0, 1.5])])))
+    out.append((("array", [1.5, 0]), Model([(1.5, [1.5]), (0, [0])])))  # numpy array input is converted to a list
     return out
 
 
@@ -273,6 +274,8 @@ def construct(GL, spec):
     kind, arg = spec
     if kind == "list":
         return GL(list(arg))
+    if kind == "array":
+        return GL(np.array(arg))
     return GL({k: list(v) for k, v in arg.items()})
 
 
